@@ -62,6 +62,17 @@ ZoomLevelOKW(items, sizes, lvl) ==   \* lvl = [res, recs]
      LET its == ItemsOf(items, c)
          recs == SelectSeq(lvl.recs, LAMBDA r : r[1] = c) IN
      ZoomFaithful(c, sizes[c], lvl.res, recs, LAMBDA b : CovW(its, b), LAMBDA b : ValAtW(its, b))
+\* with value token `inf` standing for +infinity (see BBICommon!ZoomFaithfulX)
+ZoomLevelOKWX(items, sizes, lvl, inf) ==
+  \A c \in Range(ChromsOf(items)) :
+     LET its == ItemsOf(items, c)
+         recs == SelectSeq(lvl.recs, LAMBDA r : r[1] = c) IN
+     ZoomFaithfulX(c, sizes[c], lvl.res, recs, LAMBDA b : CovW(its, b), LAMBDA b : ValAtW(its, b), LAMBDA b : CovW(its, b) /\ ValAtW(its, b) = inf)
+ZoomsOKWX(items, sizes, zooms, inf) ==
+  /\ LevelsIncreasing(Map(LAMBDA z : z.res, zooms))
+  /\ \A k \in 1..Len(zooms) : /\ ZoomLevelOKWX(items, sizes, zooms[k], inf)
+                              /\ \A i \in 1..Len(zooms[k].recs) : zooms[k].recs[i][1] \in Range(ChromsOf(items))
+                              /\ GroupedByChrom(zooms[k].recs)
 ZoomsOKW(items, sizes, zooms) ==
   /\ LevelsIncreasing(Map(LAMBDA z : z.res, zooms))
   /\ \A k \in 1..Len(zooms) : /\ ZoomLevelOKW(items, sizes, zooms[k])
